@@ -3,7 +3,7 @@
    sumbool, sumor; andb/orb inlined).  Z, N, positive, nat stay inductive. *)
 Require Extraction.
 Require Import ExtrOcamlBasic.
-From KV Require Import Base Hash Model Helpers Spec Codec RecoverSpec RecoverCrash BytesLog Dir Flock Notify Backup Conc CrashDir History XHistory Durable DurableDelete.
+From KV Require Import Base Hash Model Helpers Spec Codec RecoverSpec RecoverCrash BytesLog Dir Flock Notify Backup Conc CrashDir History XHistory Durable DurableDelete BackupFiles.
 
 Extraction "kvmodel.ml"
   Z.add Z.mul Z.sub Z.div_eucl Z.compare Z.of_nat Z.to_nat Z.of_N Z.to_N Z.eqb Z.ltb Z.leb
@@ -22,5 +22,5 @@ Extraction "kvmodel.ml"
   check_find_updates check_find_deletes check_latest_preserved check_scan mono_times rec_size
   crc32c enc_rec enc_log enc_log_header read_rec log_version scan_log scan_fuel_of enc_index index_read
   check_bytes recover_bytes recover_prog migrate_prog rrun enc_item check_recover check_check valid_prefix derive scan_items
-  do_backup backup_dir cstep cinit cabs delete_prog publish_prog rolled publish_kinds sync_kinds kinds_ops head_base delete_full
+  do_backup backup_dir cstep cinit cabs delete_prog publish_prog rolled publish_kinds sync_kinds kinds_ops head_base delete_full copy_file backup_files
   ninit nrun xrun xh_step ftab0 fstep open_dir b_open b_log_consume b_log_get b_log_get_by_key b_log_consume_by_key b_log_get_by_time.
